@@ -882,6 +882,7 @@ class state_machine_base : public FrontEnd
             {
                 // give a chance to the concrete state machine to handle
                 this->exception_caught(event, get_fsm_argument(), e);
+                result = process_result::HANDLED_FALSE;
             }
         }
 #else
